@@ -330,7 +330,10 @@ class ChunkedFile(object):
         self.calls += 1
         if self.calls > self.budget:
             raise RuntimeError('read budget exhausted: busy loop')
-        k = n if self.chunk is None else min(n, self.chunk)
+        if hasattr(self.chunk, 'randrange'):
+            k = min(n, self.chunk.randrange(1, 9))       # random partition (seeded)
+        else:
+            k = n if self.chunk is None else min(n, self.chunk)
         r = self.data[self.pos:self.pos + max(k, 0)]
         self.pos += len(r)
         return r
@@ -363,14 +366,14 @@ def replay_stream(enabled, thr, ids, sizes, cut, chunk):
         for pid, rawb in payloads:
             k, pkt = native_call(reactor.read_packet, f, 0, timeout=5.0)
             if k != 'ok':
-                bad = 'frame %d: %s %r' % (len(got), k, pkt)
+                bad = 'frame %d: %s %s' % (len(got), k, type(pkt).__name__ if k == 'raise' else '')
                 break
             if pid == 7:
                 if type(pkt) is not Probe or pkt.got != rawb:
                     bad = 'frame %d (known id) decoded wrongly' % len(got)
                     break
             elif type(pkt) is not Packet or pkt.id != pid:
-                bad = 'frame %d (unknown id %d) gave %r' % (len(got), pid, pkt)
+                bad = 'frame %d (unknown id %d) gave a %s with id %r' % (len(got), pid, type(pkt).__name__, getattr(pkt, 'id', None))
                 break
             got.append(pid)
         if bad is None and f.pos != len(data):
@@ -523,7 +526,19 @@ class Segmentation(Unit):
         N = int(model.get('length', 10))
         total = int(model.get('total', 0))
         n = max(1, min(N, 50))
-        return replay_truncated(n, min(total, n - 1) if total < N else n)
+        rp = replay_truncated(n, min(total, n - 1) if total < N else n)
+        if rp['confirmed']:
+            return rp
+        # the counter-model is a partition of the stream into reads: try partitions on multi-frame streams
+        import random
+        for seed in range(60):
+            rng = random.Random(seed)
+            sizes = [rng.choice([0, 1, 5, 9, 10, 11, 64, 200]) for _ in range(5)]
+            for chunk in (2, 3, 4, 7, 'random'):
+                r2 = replay_stream(False, None, [7, 0, 7, 300, 7], sizes, None, chunk if chunk != 'random' else rng)
+                if r2['confirmed']:
+                    return r2
+        return rp
 
     def bounded(self, rng, tier):
         fails, cnt = [], 0
